@@ -18,6 +18,20 @@ def observers(cls, src, rng, nps):
     return np.concatenate(out), inside
 
 
+def _finite_wire_H(a, b, obs, cur):
+    """textbook field of a straight wire a->b (written independently of the library): I/(4 pi d) (cos t1 - cos t2) e_phi"""
+    ab = b - a
+    L = np.linalg.norm(ab)
+    u = ab / L
+    ra, rb = obs - a, obs - b
+    perp = ra - np.outer(ra @ u, u)
+    d = np.linalg.norm(perp, axis=1)
+    c1 = (ra @ u) / np.linalg.norm(ra, axis=1)
+    c2 = (rb @ u) / np.linalg.norm(rb, axis=1)
+    ephi = np.cross(u, perp) / d[:, None]
+    return (cur / (4 * np.pi * d) * (c1 - c2))[:, None] * ephi
+
+
 def sweep(ctx, n):
     import magpylib as magpy
     from magpylib import mu_0
@@ -99,4 +113,30 @@ def sweep(ctx, n):
                     fails.append({"key": "first-principles:TriangularMesh:inside", "desc": f"{f} of a box given as TriangularMesh differs from the Cuboid closed form at an interior grid point (rel. {e:.2g})",
                                   "replay": {"dimension": np.asarray(cub.dimension).tolist(), "polarization": np.asarray(cub.polarization).tolist(), "observer": obs[k].tolist(), "mesh": a[k].tolist(), "cuboid": b[k].tolist()}})
                     break
+        # fine polylines: rings of many short segments in small numbers (nanometre .. centimetre radii) and / or given by
+        # vertices far from the object's origin, against an independently written finite-wire formula summed over the segments
+        # (a segment is short compared with its coordinates, not with the loop)
+        for _ in range(max(3, n // 8)):
+            nps = np.random.default_rng(rng.randrange(2**31))
+            centre = nps.uniform(-3, 3, 3) * rng.choice([0.0, 1.0, 1.0])
+            # away from the origin the vertices carry an absolute rounding error of ~4e-16: keep the segments >= 1e-7 long there
+            rad = 10.0 ** (nps.uniform(-9, -2) if not centre.any() else nps.uniform(-4, -2))
+            nseg = int(nps.integers(100, 900))
+            ang = np.linspace(0, 2 * np.pi, nseg + 1)
+            ex, ey = np.linalg.qr(nps.normal(size=(3, 3)))[0][:2]
+            verts = centre + rad * (np.cos(ang)[:, None] * ex + np.sin(ang)[:, None] * ey)
+            cur = float(nps.uniform(0.5, 3))
+            loop = magpy.current.Polyline(current=cur, vertices=verts)
+            d = nps.normal(size=(4, 3))
+            obs = centre + d / np.linalg.norm(d, axis=1)[:, None] * rad * nps.uniform(2, 8, (4, 1))
+            ref = np.zeros((4, 3))
+            for a, b in zip(verts[:-1], verts[1:]):
+                ref += _finite_wire_H(a, b, obs, cur)
+            H = magpy.getH(loop, obs)
+            e = float(np.max(np.abs(H - ref)) / (np.max(np.abs(ref)) + 1e-300))
+            done += len(obs)
+            worst["Polyline:fine"] = max(worst.get("Polyline:fine", 0), e)
+            if not e < 1e-6:
+                fails.append({"key": "first-principles:Polyline:fine", "desc": f"getH of a ring of {nseg} short segments (radius {rad:.3g}, vertices around {centre.round(3).tolist()}) differs from the Biot-Savart sum over its segments (rel. {e:.2g})",
+                              "replay": {"radius": rad, "segments": nseg, "centre": centre.tolist(), "current": cur, "observer": obs[0].tolist(), "getH": H[0].tolist(), "reference": ref[0].tolist()}})
     return fails, {"c01_observers": done, "c01_worst_rel_err": {k: float(f"{v:.3g}") for k, v in worst.items()}}
